@@ -5,6 +5,7 @@ CONSTANTS
   MaxSeg = 1
   WatchPerSegment = TRUE
   SwapInstallsOld = TRUE
+  ResetOnRoll = FALSE
   Reader = {r1}
 INVARIANTS TypeOK ReaderNeverMisses EmitSched
 PROPERTY PublishedMonotone
